@@ -68,9 +68,10 @@ theorem after_save_only_resume (s s' : St) (a : Act) (hpc : s.ctl.pc = .svAfter)
       | (repeat' split at hs
          all_goals first | contradiction | simp_all))
 
-/-- The final state is written after every thread has exited (nothing can change underneath it). -/
+/-- The final state is written after every thread has exited or, when the start-up was cut short,
+was never started (nothing can change underneath it: `done_is_final`, `never_started_is_final`). -/
 theorem final_save_after_all_exited {n mx : Nat} {s : St} (hr : Reachable n mx s)
-    (h : s.ctl.pc = .finalIn) : ∀ th ∈ s.thr, th.pc = .done :=
+    (h : s.ctl.pc = .finalIn) : ∀ th ∈ s.thr, th.pc = .done ∨ th.pc = .new :=
   (final_save_last hr (Or.inl h)).1
 
 /-! Non-vacuity: a save command while running, from the C01 witness (paused by the save's own
